@@ -266,7 +266,29 @@ def order(ex, st, op, a, b):
     raise Unsupported('ordering %r vs %r' % (a, b))
 
 
+def _lower_eq(a, b):
+    """lower(x) == 'const'  <=>  x is one of the ASCII case variants of const (exact for ASCII letters)"""
+    from . import strings
+    for u, v in ((a, b), (b, a)):
+        if isinstance(u, VStr) and isinstance(v, VStr) and z3.is_app(u.t) and u.t.num_args() == 1 and \
+                u.t.decl().name() in ('str_lower', 'str_upper') and v.conc() is not None and len(v.conc()) <= 4:
+            c = v.conc()
+            lower = u.t.decl().name() == 'str_lower'
+            if (c.lower() if lower else c.upper()) != c:
+                return z3.BoolVal(False)
+            variants = ['']
+            for ch in c:
+                alts = {ch.lower(), ch.upper()} if ch.isascii() and ch.isalpha() else {ch}
+                variants = [p + x for p in variants for x in sorted(alts)]
+            return z3.Or([u.t.arg(0) == z3.StringVal(x) for x in variants])
+    return None
+
+
 def py_eq(ex, st, a, b):
+    le = _lower_eq(a, b)
+    if le is not None:
+        ex.used_stubs.add("str.lower() == 'c' iff the string is an ASCII case variant of c")
+        return le
     if isinstance(a, VObj) and a.cls.startswith('$') or isinstance(b, VObj) and b.cls.startswith('$'):
         return stub_eq(ex, st, a, b)
     if isinstance(a, VObj) and isinstance(b, VObj) and a.ref != b.ref:
@@ -1279,6 +1301,36 @@ def dict_m_update(ex, st, selfv, args, kwargs, node):
     return [(s, NONE) for s in writeback(ex, st, node, VDict(items))]
 
 
+@method('str', 'lower')
+def str_m_lower(ex, st, selfv, args, kwargs, node):
+    from . import strings
+    ex.used_stubs.add('str.lower()/upper(): uninterpreted function (constant-folded on literals)')
+    return [(st, strings.lower_of(selfv))]
+
+
+@method('str', 'upper')
+def str_m_upper(ex, st, selfv, args, kwargs, node):
+    from . import strings
+    ex.used_stubs.add('str.lower()/upper(): uninterpreted function (constant-folded on literals)')
+    return [(st, strings.upper_of(selfv))]
+
+
+@builtin('str_lower')
+def b_str_lower(ex, st, args, kwargs, node):
+    from . import strings
+    return [(st, strings.lower_of(args[0]))]
+
+
+@method('str', 'startswith')
+def str_m_startswith(ex, st, selfv, args, kwargs, node):
+    return [(st, VBool(z3.PrefixOf(args[0].t, selfv.t)))]
+
+
+@method('str', 'endswith')
+def str_m_endswith(ex, st, selfv, args, kwargs, node):
+    return [(st, VBool(z3.SuffixOf(args[0].t, selfv.t)))]
+
+
 # ---------------------------------------------------------------------------------------------------------
 # stub object plumbing
 def stub_truth(ex, st, v):
@@ -1370,7 +1422,10 @@ def _gridlist_fresh(ex, st, ty, name, idx):
     st.assume(names.length() == vals.length())
     st.heap[obj.ref]['values'] = vals
     st.heap[obj.ref]['names'] = names
-    st.heap[obj.ref]['$idx'] = z3.Function(uid(name + '.idx'), z3.StringSort(), z3.IntSort())
+    idxf = z3.Function(uid(name + '.idx'), z3.StringSort(), z3.IntSort())
+    st.heap[obj.ref]['$idx'] = idxf
+    qi = z3.Int(uid('qi'))
+    st.assume(z3.ForAll([qi], z3.Implies(z3.And(0 <= qi, qi < vals.length()), idxf(names.elem(qi).t) == qi)))
     ex.used_stubs.add('gridlist: model of util.collections.ImmutableDictList (names are distinct keys)')
     return obj
 
@@ -1446,3 +1501,33 @@ STUB_CLASSES['$gridlist'] = {
         length=_gl(st, v)[0].length(),
         elem=lambda i, v=v, st=st: VSeq([_gl(st, v)[1].elem(i), _gl(st, v)[0].elem(i)], kind='tuple'), kind='list'))],
 }
+
+
+def gridlist_ctor(ex, st, args, kwargs, node):
+    """NamedGridList(items): items are (name, value) pairs or plain values (then names are '%02d' % i)"""
+    items = args[0]
+    outs = as_seq(ex, st, items)
+    res = []
+    for s2, sq in outs:
+        if isinstance(sq, Raised):
+            res.append((s2, sq))
+            continue
+        probe = sq.elem(z3.IntVal(0)) if (not sq.concrete or sq.items) else None
+        obj = ex.new_ref(s2, '$gridlist')
+        if probe is not None and isinstance(probe, VSeq) and probe.concrete and len(probe.items) == 2 and \
+                isinstance(probe.items[0], VStr):
+            vals = VSeq(length=sq.length(), elem=lambda i, sq=sq: sq.elem(i).items[1], kind='list')
+            names = VSeq(length=sq.length(), elem=lambda i, sq=sq: sq.elem(i).items[0], kind='list')
+        else:
+            from . import strings
+            vals = sq
+            names = VSeq(length=sq.length(), elem=lambda i: VStr(strings.fmt_0d(2, i)), kind='list')
+        s2.heap[obj.ref]['values'] = vals
+        s2.heap[obj.ref]['names'] = names
+        s2.heap[obj.ref]['$idx'] = z3.Function(uid('gl.idx'), z3.StringSort(), z3.IntSort())
+        ex.used_stubs.add('gridlist: model of util.collections.ImmutableDictList (names are distinct keys)')
+        res.append((s2, obj))
+    return res
+
+
+CTOR_STUBS = {'mapproxy.grid:NamedGridList': gridlist_ctor, 'mapproxy.util.collections:ImmutableDictList': gridlist_ctor}
